@@ -881,6 +881,27 @@ type gitIndexConfig struct {
 	prepareNormalBuild prepareNormalBuildFunc
 }
 
+// changeFiles returns the regular file on each side of a tree change.
+// Unlike object.Change.Files it still reports the file on one side when the
+// other side of the change is not a file (for example a file that is replaced
+// by a submodule link at the same path): the old path has to be hidden and the
+// new file has to be indexed all the same.
+func changeFiles(c *object.Change) (from, to *object.File, err error) {
+	if c.From.Tree != nil && c.From.TreeEntry.Mode.IsFile() {
+		from, err = c.From.Tree.TreeEntryFile(&c.From.TreeEntry)
+		if err != nil {
+			return nil, nil, err
+		}
+	}
+	if c.To.Tree != nil && c.To.TreeEntry.Mode.IsFile() {
+		to, err = c.To.Tree.TreeEntryFile(&c.To.TreeEntry)
+		if err != nil {
+			return nil, nil, err
+		}
+	}
+	return from, to, nil
+}
+
 func prepareDeltaBuild(options Options, repository *git.Repository) (repos map[fileKey]BlobLocation, branchVersions map[string]map[string]plumbing.Hash, changedOrDeletedPaths []string, err error) {
 	if options.Submodules {
 		return nil, nil, nil, fmt.Errorf("delta builds currently don't support submodule indexing")
@@ -990,7 +1011,7 @@ func prepareDeltaBuild(options Options, repository *git.Repository) (repos map[f
 		}
 
 		for i, c := range changes {
-			oldFile, newFile, err := c.Files()
+			oldFile, newFile, err := changeFiles(c)
 			if err != nil {
 				return nil, nil, nil, fmt.Errorf("change #%d: getting files before and after change: %w", i, err)
 			}
